@@ -160,7 +160,7 @@ def export_case(rng, pt, el, tmpdir):
 
 def correspondence(pid, tier, seed):
     rng = random.Random(seed * 2003 + 9)
-    n = 60 if tier == 'quick' else 700
+    n = lib.size(60, 700, tier)
     items, recs = [], []
     with tempfile.TemporaryDirectory() as d:
         for _ in range(n):
